@@ -8,8 +8,10 @@
     `both_transport_listener_covered`   : the spelling classes the statement lists, one by one
 -/
 import MitmVerif.Model.C23
+import MitmVerif.Lemmas.C23Render
+import MitmVerif.Lemmas.C23Refine
 namespace MitmVerif.Props.C23
-open MitmVerif MitmVerif.C22 MitmVerif.C23
+open MitmVerif MitmVerif.C22 MitmVerif.C23 MitmVerif.Lemmas.C22 MitmVerif.Lemmas.C23
 
 private theorem loopbackAddr_effective (a : Addr) (h : loopbackAddr a = true) :
     isLoopback (effective a) = true := by
@@ -169,6 +171,61 @@ theorem wildcard_blocked (servers : List Server) (s : Server) (lh dh : Text) (dp
 /-- a mode that listens on both transports is covered for TCP and for UDP destinations -/
 theorem both_transport_listener_covered (tp : Transport) : transportMatches ModeTransport.both tp = true := by
   cases tp <;> rfl
+
+/-! ### "every address in 127.0.0.0/8", the IPv4-mapped loopback addresses and the wildcard — as texts,
+    without parse hypotheses (read-back theorems of the C22 parser model) -/
+
+/-- **every address of 127.0.0.0/8, written `127.b.c.d`**, on the port of any listener of a
+    matching transport, is refused -/
+theorem every_127_address_blocked (servers : List Server) (s : Server) (lh : Text) (b c d dp : Nat)
+    (tp : Transport) (hb : b < 256) (hc : c < 256) (hd : d < 256)
+    (hs : s ∈ servers) (ha : (lh, dp) ∈ s.addrs) (ht : transportMatches s.transport tp = true) :
+    selfConnect servers (dotted 127 b c d) dp tp = true := by
+  refine loopback_addresses_blocked servers s lh (dotted 127 b c d) dp tp
+    (Addr.v4 (((127 * 256 + b) * 256 + c) * 256 + d)) hs ha ht ?_ ?_
+  · rw [normHost_dotted 127 b c d (by decide) hb hc hd]
+    simp [parseIp, parseV4_dotted 127 b c d (by decide) hb hc hd]
+  · simp only [loopbackAddr, Bool.and_eq_true, Nat.ble_eq]
+    omega
+
+/-- **every IPv4-mapped loopback address, written `::ffff:127.b.c.d`**, likewise -/
+theorem every_mapped_127_address_blocked (servers : List Server) (s : Server) (lh : Text) (b c d dp : Nat)
+    (tp : Transport) (hb : b < 256) (hc : c < 256) (hd : d < 256)
+    (hs : s ∈ servers) (ha : (lh, dp) ∈ s.addrs) (ht : transportMatches s.transport tp = true) :
+    selfConnect servers (mappedText 127 b c d) dp tp = true := by
+  refine loopback_addresses_blocked servers s lh (mappedText 127 b c d) dp tp
+    (Addr.v6 (0xFFFF * 4294967296 + (((127 * 256 + b) * 256 + c) * 256 + d)) none) hs ha ht ?_ ?_
+  · rw [normHost_mapped 127 b c d (by decide) hb hc hd]
+    exact parseIp_mapped 127 b c d (by decide) hb hc hd
+  · have h1 : (0xFFFF * 4294967296 + (((127 * 256 + b) * 256 + c) * 256 + d)) / 4294967296 = 0xFFFF := by omega
+    have h2 : (0xFFFF * 4294967296 + (((127 * 256 + b) * 256 + c) * 256 + d)) % 4294967296 =
+        ((127 * 256 + b) * 256 + c) * 256 + d := by omega
+    simp only [loopbackAddr, h1, h2, Bool.or_eq_true, Bool.and_eq_true, beq_iff_eq, Nat.ble_eq]
+    right
+    exact ⟨⟨trivial, by omega⟩, by omega⟩
+
+/-- the explicit listen address written as a dotted quad (plain or IPv4-mapped) is refused on a
+    listener bound to that dotted quad, whatever the address is -/
+theorem listen_address_dotted_blocked (servers : List Server) (s : Server) (a b c d dp : Nat) (tp : Transport)
+    (h0 : a < 256) (hb : b < 256) (hc : c < 256) (hd : d < 256)
+    (hs : s ∈ servers) (ha : (dotted a b c d, dp) ∈ s.addrs) (ht : transportMatches s.transport tp = true) :
+    selfConnect servers (dotted a b c d) dp tp = true ∧
+    selfConnect servers (mappedText a b c d) dp tp = true := by
+  have hspec : ∀ dh, sameHost dh (dotted a b c d) = true → selfConnect servers dh dp tp = true := by
+    intro dh hsame
+    apply spec_implies_blocked
+    simp only [denotesOwnSocket, List.any_eq_true]
+    exact ⟨s, hs, (dotted a b c d, dp), ha, by simp [ht, hsame]⟩
+  constructor
+  · exact hspec _ (by simp [sameHost])
+  · apply hspec
+    have hp6 := parseIp_mapped a b c d h0 hb hc hd
+    have hp4 : parseIp (dotted a b c d) = some (Addr.v4 (((a * 256 + b) * 256 + c) * 256 + d)) := by
+      simp [parseIp, parseV4_dotted a b c d h0 hb hc hd]
+    have h1 : (0xFFFF * 4294967296 + (((a * 256 + b) * 256 + c) * 256 + d)) / 4294967296 = 0xFFFF := by omega
+    have h2 : (0xFFFF * 4294967296 + (((a * 256 + b) * 256 + c) * 256 + d)) % 4294967296 =
+        ((a * 256 + b) * 256 + c) * 256 + d := by omega
+    simp [sameHost, normHost_mapped a b c d h0 hb hc hd, hp6, hp4, effective, h1, h2]
 
 /-! ### histories of runtime reconfiguration -/
 
@@ -423,6 +480,25 @@ example : lrun LState.empty
     = [none, none, none, some [.hookServerConnect, .hookServerConnectError, .completedKilled], none,
        none, some [.hookServerConnect, .hookServerConnectError, .completedKilled], none, none,
        some [.hookServerConnect, .socketOpen, .hookServerConnectError, .completedError]] := by decide +kernel
+
+/-! ### the two listener models agree: `update` is the settled view of the per-event model -/
+
+/-- after the events of one complete `Servers.update` (in the order the code produces them, from a
+    settled state) the guard sees every listener the per-update model predicts -/
+theorem update_is_settled_view (S : State) (so : Bool) (modes : List Nat) (start : List (Nat × Server))
+    (s : Server) (hs : s ∈ (update S so modes start).live) :
+    s ∈ (lstateAfter (settled S) (updateEvents S so modes start)).guardView :=
+  update_refines S so modes start s hs
+
+/-- hence what the per-update history theorem promises for a reconfiguration holds in the per-event
+    model once the update's events are through: a destination denoting a listener predicted by
+    `update` is recognised by the guard -/
+theorem settled_update_blocks (S : State) (so : Bool) (modes : List Nat) (start : List (Nat × Server))
+    (dh : Text) (dp : Nat) (tp : Transport)
+    (hown : denotesOwnSocket (update S so modes start).live dh dp tp = true) :
+    selfConnect (lstateAfter (settled S) (updateEvents S so modes start)).guardView dh dp tp = true :=
+  spec_implies_blocked _ dh dp tp
+    (denotes_sub _ _ (fun s hs => update_refines S so modes start s hs) dh dp tp hown)
 
 /-! ### non-vacuity: concrete spellings, computed by the kernel -/
 
